@@ -411,3 +411,10 @@ Definition validate_cache_total_phases (given : option (list nat)) (n_omega : na
 Definition validate_basis_size (n : Z) : verdict := check (1 <=? n)%Z ValueError.
 (* PulseSequence.propagator_at_arb_t(t): no time beyond the duration *)
 Definition validate_propagator_times (beyond : list bool) : verdict := check (negb (existsb (fun b => b) beyond)) ValueError.
+
+(* gradient.infidelity_derivative: noise identifiers, spectrum (for the selected operators), control identifiers *)
+Definition validate_infidelity_derivative (a : analysis_d) (all_c_ids : list string) (c_ids : option (list string)) : verdict :=
+  validate_ids (map n_id (p_n (a_pulse a))) (a_ids a) ;;
+  check (arraylike (s_kind (a_spectrum a)) && arraylike (a_omega_kind a)) TypeError ;;
+  validate_spectrum (a_spectrum a) (n_selected (map n_id (p_n (a_pulse a))) (a_ids a)) (a_omega_len a) ;;
+  validate_ids all_c_ids c_ids.
